@@ -105,17 +105,17 @@ theorem unreserved_ne {c : Nat} (h : unreserved c = true) : c ≠ 37 ∧ c ≠ 4
   omega
 
 theorem queryUnescape_plus (t : List Nat) : queryUnescape (43 :: t) = (queryUnescape t).map (32 :: ·) := by
-  rw [queryUnescape]
+  rw [queryUnescape.eq_def]
   simp
 
 theorem queryUnescape_other (c : Nat) (t : List Nat) (h37 : c ≠ 37) (h43 : c ≠ 43) :
     queryUnescape (c :: t) = (queryUnescape t).map (c :: ·) := by
-  rw [queryUnescape]
+  rw [queryUnescape.eq_def]
   simp [h37, h43]
 
 theorem queryUnescape_pct (a b x y : Nat) (t : List Nat) (ha : unhex a = some x) (hb : unhex b = some y) :
     queryUnescape (37 :: a :: b :: t) = (queryUnescape t).map ((x * 16 + y) :: ·) := by
-  rw [queryUnescape]
+  rw [queryUnescape.eq_def]
   simp [ha, hb]
 
 theorem queryUnescape_append_esc (c : Nat) (hc : c < 256) (t : List Nat) :
